@@ -3,7 +3,12 @@ import re, os, json, glob
 HERE = os.path.dirname(os.path.abspath(__file__))
 reg = {}
 imports = []
+wip = set()
+if os.path.exists(os.path.join(HERE, "wip.txt")):
+    wip = {l.strip() for l in open(os.path.join(HERE, "wip.txt")) if l.strip()}
 for f in sorted(glob.glob(os.path.join(HERE, "..", "lean", "TTProps", "*.lean"))):
+    if os.path.basename(f)[:-5] in wip:
+        continue
     imports.append("import TTProps." + os.path.basename(f)[:-5])
     src = open(f).read()
     src = re.sub(r"/-.*?-/", "", src, flags=re.S)
